@@ -212,6 +212,47 @@ def o_sign(case, cfgs=ACCEL):
     return labels
 
 
+def o_sign_blinding(case):
+    """a generator instance whose blinding factor is adversarial for this very (d, z): it cancels the RFC 6979 nonce in the
+    signer's fixed-base multiplication (k + b = 0 or n), or u1 = z/s in the verifier's (u1 + b = 0 or n).  Signing and
+    verification are properties of (d, z, r, s), not of the instance's blinding, so the results must be the usual ones."""
+    spec, cfg, d, z = case["curve"], case["cfg"], case["d"], case["z"]
+    c = ref_curve(spec)
+    n = c.n
+    Q = c.mul_fast(d, c.G)
+    k0 = refecdsa.first_nonce(n, d, z)
+    r0, s0, _R0 = refecdsa.sign_with_k(c, d, z, k0)
+    if r0 == 0 or s0 == 0:
+        return ["skip-first-nonce-gives-zero"]
+    u1 = z * pow(s0, -1, n) % n
+    u1_low = z * pow(n - s0, -1, n) % n
+    target = {"nonce": k0, "u1": u1, "u1-other-s": u1_low, "nonce+1": k0 + 1, "zero": 0}[case["cancel"]]
+    b = (-target) % n
+    g = ecgen.build_generator(spec, cfg, entropy_f=ecgen.entropy_from_hex("%064x" % b))
+    labels = [curve_label(spec), "cfg=" + cfg, "cancel=" + case["cancel"],
+              "blinding-as-chosen" if getattr(g, "_blinding_factor", None) == b else "blinding-differs"]
+    where = "%s/%s instance with blinding factor n - %s, d=%s z=%s" % (c.name, cfg, case["cancel"], _h(d), _h(z))
+    r, s = g.sign(d, z)
+    if (r, s) != (r0, s0):
+        _bad("sign:adversarial-blinding:sign!=rfc6979", "%s: sign = (%s, %s), RFC 6979 signature (%s, %s)" % (where, _h(r), _h(s), _h(r0), _h(s0)))
+    for rr, ss in ((r0, s0), (r0, n - s0)):
+        got = g.verify(Q, z, (rr, ss))
+        if got is not True:
+            _bad("verify:adversarial-blinding:valid-refused", "%s: verify of the valid signature (s%s) returned %r" % (where, "" if ss == s0 else " negated", got))
+    if g.verify(Q, (z + 1) % (1 << 256) or 1, (r0, s0)) is not False:
+        _bad("verify:adversarial-blinding:other-hash-accepted", "%s: signature verifies for z + 1" % where)
+    pk = g * d
+    if tuple(pk) != Q:
+        _bad("genmul:adversarial-blinding", "%s: G * d = %r" % (where, tuple(pk)))
+    return labels
+
+
+def s_sign_blinding():
+    return st.builds(lambda cv, cfg, d, z, cancel: {"curve": cv, "cfg": cfg, "d": d, "z": z, "cancel": cancel},
+                     st.sampled_from(["k1", "r1"]), st.sampled_from(["openssl", "openssl", "pure"]), st.integers(1, 2**255),
+                     st.integers(1, 2**256 - 1), st.sampled_from(["nonce", "nonce", "u1", "u1-other-s", "nonce+1", "zero"]))
+
+
 def o_sign_pure(case):
     return o_sign(case, ("pure",))
 
@@ -734,6 +775,9 @@ _R_RECOVER = ("(z, (r,s)) from classes valid / malleated / r+n / r in [n,p) / s 
               "present when the nonce abscissa < n; non-trivial = some key returned or (r,s) out of range")
 
 SUBCHECKS = [
+    SubCheck("sign_adversarial_blinding", o_sign_blinding, strategy=s_sign_blinding, budget=(320, 12000),
+             nontrivial=lambda c, l: "blinding-as-chosen" in l,
+             rule="secp256k1 / secp256r1 generator instances (OpenSSL class and pure) constructed with a blinding factor that cancels this case's RFC 6979 nonce (k + b = n), or its u1 = z/s (for either sign of s), in the blinded fixed-base multiplication: sign must still equal the RFC 6979 signature, verify must accept it and refuse z+1, G*d must be the public key; non-trivial = the instance really has the chosen blinding factor"),
     SubCheck("sign_rfc6979", o_sign, strategy=s_sign, budget=(1200, 40000), nontrivial=nt_sign,
              rule="secp256k1 + secp256r1, shipped and explicit-OpenSSL generators: " + _R_SIGN),
     SubCheck("sign_rfc6979_pure", o_sign_pure, strategy=s_sign, budget=(64, 2000), nontrivial=nt_sign,
